@@ -156,6 +156,9 @@ func ClassifyReturns(fn *ssa.Function) []ReturnInfo {
 				anyNil = true
 				allFail = false
 			case provenNonNil(v, b):
+			case provenNil(v, b):
+				anyNil = true
+				allFail = false
 			default:
 				allFail = false
 			}
@@ -299,4 +302,41 @@ func UniqueReaching(fn *ssa.Function, v ssa.Value) ssa.Value {
 		v = vals[0]
 	}
 	return v
+}
+
+// provenNil: block at is dominated by the nil edge of a nil test of v.
+func provenNil(v ssa.Value, at *ssa.BasicBlock) bool {
+	v = Strip(v)
+	fn := at.Parent()
+	for _, b := range fn.Blocks {
+		n := len(b.Instrs)
+		if n == 0 {
+			continue
+		}
+		iff, ok := b.Instrs[n-1].(*ssa.If)
+		if !ok {
+			continue
+		}
+		c, pos, isCmp := AsCmp(iff.Cond)
+		if !isCmp || (c.Op != token.EQL && c.Op != token.NEQ) {
+			continue
+		}
+		x, y := c.X, c.Y
+		if IsNilConst(x) {
+			x, y = y, x
+		}
+		if !IsNilConst(y) || !sameValue(x, v) {
+			continue
+		}
+		nilOnTrue := (c.Op == token.EQL) == pos
+		idx := 1
+		if nilOnTrue {
+			idx = 0
+		}
+		succ := b.Succs[idx]
+		if len(succ.Preds) == 1 && (succ == at || succ.Dominates(at)) {
+			return true
+		}
+	}
+	return false
 }
